@@ -77,7 +77,19 @@ func VerifC11_UnshareCancel() {
 	case 2: // never cancelled: the program must end by itself
 		sym.Assume(selfEnds)
 	}
+	sym.WaitOthers()
+	baseThreads := sym.ThreadsAlive()
 	res := r.Run(ctx)
+	// C12: with the caller's context still alive, nothing of the run may be left behind
+	sym.WaitOthers()
+	if !kern.Cancelled(ctx) {
+		sym.Reach("context-outlives-run")
+		left := sym.ThreadsAlive() - baseThreads
+		if selfEnds && !ended {
+			left-- // the model's own 'program ends' thread
+		}
+		sym.Assert(left <= 0, "a goroutine of the run is left behind while the caller's context lives on")
+	}
 	cancel()
 	sym.Reach("returned")
 	sym.Assert(reaped, "the program must be dead and reaped when Run returns")
